@@ -66,7 +66,7 @@ pub fn cases(ctx: &Ctx) -> Vec<WCase> {
     let mut out = vec![];
     let mut r = Rng::new(ctx.seed ^ 0xC12);
     // A. handshake under loss/dup/reorder with stray replies; advance_frame called from the start
-    for i in 0..ctx.n(1500, 60_000) {
+    for i in 0..ctx.n(6000, 300_000) {
         let mut rr = r.fork(i as u64);
         let mut s = Scn::base(rr.next());
         s.peers = rr.pick(&[vec![vec![0], vec![1]], vec![vec![0], vec![1], vec![2]], vec![vec![0, 2], vec![1, 3]], vec![vec![0]]]);
@@ -85,7 +85,7 @@ pub fn cases(ctx: &Ctx) -> Vec<WCase> {
         out.push(wcase(format!("handshake-{i}"), s));
     }
     // B. silences of every length relative to notify and timeout
-    for i in 0..ctx.n(1500, 60_000) {
+    for i in 0..ctx.n(6000, 300_000) {
         let mut rr = r.fork(0x2000_0000 + i as u64);
         let mut s = Scn::base(rr.next());
         s.peers = vec![vec![0], vec![1]];
@@ -119,7 +119,7 @@ pub fn cases(ctx: &Ctx) -> Vec<WCase> {
         out.push(wcase(format!("silence-{i}"), s));
     }
     // C. two connected sessions that merely poll, default timeouts
-    for i in 0..ctx.n(60, 2000) {
+    for i in 0..ctx.n(200, 6000) {
         let mut rr = r.fork(0x3000_0000 + i as u64);
         let mut s = Scn::base(rr.next());
         s.peers = vec![vec![0], vec![1]];
@@ -140,7 +140,7 @@ pub fn cases(ctx: &Ctx) -> Vec<WCase> {
         out.push(wcase(format!("pollonly-{i}"), s));
     }
     // D. the user never drains events: floods of Interrupted/Resumed, WaitRecommendation, DesyncDetected
-    for i in 0..ctx.n(40, 1500) {
+    for i in 0..ctx.n(120, 4000) {
         let mut rr = r.fork(0x4000_0000 + i as u64);
         let mut s = Scn::base(rr.next());
         s.peers = rr.pick(&[vec![vec![0], vec![1]], vec![vec![0], vec![1], vec![2]]]);
